@@ -29,7 +29,7 @@ DATES = ["1999-12-31", "2000-01-01", "2000-02-29", "2001-03-04", "2010-10-10", "
 
 def key_value(rng, typ, wide=True):
     if typ in ("INT", "BIGINT", "SMALLINT"):
-        return rng.randint(-20, 300)
+        return rng.randint(-20, 300) if wide else rng.randint(0, 12)
     if typ == "VARCHAR":
         return rng.choice("abcdefghij") + str(rng.randint(0, 30))
     if typ == "DATE":
@@ -65,12 +65,16 @@ def run_case(args):
             res["inconclusive"] = "create rejected"
             return res
         used = set()
+        # the key column is not enforced unique: half of the cases hold duplicate keys (runs of
+        # equal keys then cross block and row-set boundaries)
+        dups = rng.random() < 0.5
+        res["kinds"]["tables_with_duplicate_keys" if dups else "tables_with_unique_keys"] = 1
         for _ in range(rng.randint(1, 5)):
             rows = []
             for _ in range(rng.choice([3, 10, 40, 120])):
                 row = [gen_value(rng, c, null_p=0.15) for c in t.cols]
-                k = key_value(rng, ktyp)
-                if k in used:
+                k = key_value(rng, ktyp, wide=not dups)
+                if k in used and not dups:
                     continue
                 used.add(k)
                 row[kpos] = k
